@@ -91,7 +91,11 @@
        correspondence check, run with an honest script (no adversarial ==, no
        injected fault), satisfies HCK / HCV with ck = kcls and
        veq a b = (vdat a =? vdat b); C15_clone_honest_map is C15_clone_lawful
-       instantiated there.
+       instantiated there WITHOUT its last conjunct (CORRECTED, second audit:
+       the log clause "exactly one clone per element" is dropped by that
+       theorem; the full instance, log clause included, is
+       C15_clone_honest_map_full / C15_clone_honest_set_full in the ROUND 2
+       section at the end of this file).
        C15_env_set_cloneK, C15_env_set_cloneV : the same for the Set environment
        env_set (V = unit, veq = fun _ _ => true), so that C15_clone_lawful /
        C15_clone_equal apply to Set<T,N> = Map<T,(),N> under the honest script.
@@ -847,3 +851,311 @@ Proof.
   split; [vm_compute; reflexivity|]. split; [vm_compute; reflexivity|].
   split; vm_compute; reflexivity.
 Qed.
+
+(* ========================================================================== *)
+(* ROUND 2 — second audit (Proofs/MoreEq.v, Parts F and H)                      *)
+(*  1. the counter premise of C15_clone_disjoint_env_map is an INVARIANT of       *)
+(*     interpreter runs, for every script and all 56 operations:                  *)
+(*       C15_below_unfold, C15_init_below, C15_step_below, C15_run_below,         *)
+(*       C15_run_below_init; clone independence in every such state:              *)
+(*       C15_step_OClone_disjoint (+ OCloneFrom, SClone, SCloneFrom),             *)
+(*       C15_step_OClone_returned_disjoint, C15_reachable_OClone_disjoint,        *)
+(*       C15_reachable_SClone_disjoint                                            *)
+(*  2. later CHANGES composed with identity-disjointness (not merely structural): *)
+(*       C15_history_foreign_untouched, C15_clone_then_history_independent        *)
+(*  3. C15_clone_honest_map dropped the log clause:                               *)
+(*       C15_clone_honest_map_full, C15_clone_honest_set_full                     *)
+(* ========================================================================== *)
+Require Import Proofs.Dict Proofs.MoreOwned.
+
+(* -------------------------------------------------------------------------- *)
+(* 3. clone_lawful at the two environments of the correspondence check WITH its
+   log clause: the log grows by exactly [EvCloneK (id of key_i); EvCloneV (id of
+   value_i)] (Set: [EvCloneK (id of element_i)]) for i = 0..len-1 in slot order -
+   "produced by cloning each stored key and each stored value exactly once" *)
+Theorem C15_clone_honest_map_full :
+  forall (sc : script) (src : map key vobj) (w : world key vobj cstate),
+    honest sc ->
+    WF src -> WF (self w) -> len (self w) = 0 -> cap (self w) = cap src ->
+    wp (clone_from_src (env_map sc) src)
+       (fun (_ : unit) (w' : world key vobj cstate) =>
+          WF (self w') /\
+          cap (self w') = cap src /\
+          len (self w') = len src /\
+          Forall2 (fun p p' : key * vobj =>
+                     kcls (fst p') = kcls (fst p) /\ (vdat (snd p') =? vdat (snd p))%N = true)
+                  (Spec.elems src) (Spec.elems (self w')) /\
+          logged w w'
+            (flat_map (fun p : key * vobj => [EvCloneK (kid (fst p)); EvCloneV (vid (snd p))])
+                      (Spec.elems src)))
+       (fun _ : world key vobj cstate => False) w.
+Proof. exact clone_honest_map_full. Qed.
+Print Assumptions C15_clone_honest_map_full.
+
+Theorem C15_clone_honest_set_full :
+  forall (sc : script) (src : map key unit) (w : world key unit cstate),
+    honest sc ->
+    WF src -> WF (self w) -> len (self w) = 0 -> cap (self w) = cap src ->
+    wp (clone_from_src (env_set sc) src)
+       (fun (_ : unit) (w' : world key unit cstate) =>
+          WF (self w') /\
+          cap (self w') = cap src /\
+          len (self w') = len src /\
+          Forall2 (fun p p' : key * unit => kcls (fst p') = kcls (fst p))
+                  (Spec.elems src) (Spec.elems (self w')) /\
+          logged w w' (flat_map (fun p : key * unit => [EvCloneK (kid (fst p))]) (Spec.elems src)))
+       (fun _ : world key unit cstate => False) w.
+Proof. exact clone_honest_set_full. Qed.
+Print Assumptions C15_clone_honest_set_full.
+
+(* -------------------------------------------------------------------------- *)
+(* 1. The invariant.
+     mids m / sids m   the identities held in any slot of a Map / Set register
+                       (= owned (env_map sc) m / owned (env_set sc) m for every
+                       script sc: identities are the kid / vid fields);
+     allx x            those of all four registers of an interpreter state;
+     below x           every one of them is smaller than the counter next_id of the
+                       callback state, from which Clone / Default / the decoders
+                       take new identities;
+     Exec.op_ids o     the identities operation o hands in (what the harness's
+                       test case mentions).
+   C15_step_below: for EVERY script (lying ==, injected panics in ==, Clone, Drop,
+   closures), every state - no well-formedness and no contract needed: an undefined
+   step changes neither registers nor counter - and each of the 56 operations: if
+   [below] holds and the handed-in identities are below the counter, [below] holds
+   afterwards and the counter has not decreased.  (Proved by a small program logic
+   over the model's monad, MoreEq.NB: every library function and every interpreter
+   session keeps "stored, free and returned identities are below the counter".)
+   C15_run_below / _init: hence after any history; from init_world (counter 100000)
+   it suffices that the test case mentions identities below 100000. *)
+Theorem C15_below_unfold :
+  forall (sc : script) (x : xworld),
+    below x <->
+    (forall id : N,
+        In id (owned (env_map sc) (xm0 x) ++ owned (env_map sc) (xm1 x) ++
+               owned (env_set sc) (xs0 x) ++ owned (env_set sc) (xs1 x)) ->
+        (id < next_id (xcb x))%N).
+Proof. exact (fun sc x => iff_refl (below x)). Qed.
+Print Assumptions C15_below_unfold.
+
+Theorem C15_init_below : forall c0 c1 c2 c3 : N, below (init_world c0 c1 c2 c3).
+Proof. exact init_below. Qed.
+Print Assumptions C15_init_below.
+
+Theorem C15_step_below :
+  forall (debug : bool) (sc : script) (o : op) (x : xworld),
+    below x ->
+    (forall id : N, In id (op_ids o) -> (id < next_id (xcb x))%N) ->
+    below (snd (step debug sc o x)) /\
+    (next_id (xcb x) <= next_id (xcb (snd (step debug sc o x))))%N.
+Proof. exact step_below. Qed.
+Print Assumptions C15_step_below.
+
+Theorem C15_run_below :
+  forall (debug : bool) (sc : script) (ops : list op) (x : xworld),
+    below x ->
+    (forall (o : op) (id : N), In o ops -> In id (op_ids o) -> (id < next_id (xcb x))%N) ->
+    below (run_final debug sc ops x) /\
+    (next_id (xcb x) <= next_id (xcb (run_final debug sc ops x)))%N.
+Proof. exact run_below. Qed.
+Print Assumptions C15_run_below.
+
+Theorem C15_run_below_init :
+  forall (debug : bool) (sc : script) (ops : list op) (c0 c1 c2 c3 : N),
+    (forall (o : op) (id : N), In o ops -> In id (op_ids o) -> (id < 100000)%N) ->
+    below (run_final debug sc ops (init_world c0 c1 c2 c3)).
+Proof. exact run_below_init. Qed.
+Print Assumptions C15_run_below_init.
+
+(* Clone in a state satisfying [below] (well formed: C02/C04), EVERY script, the
+   two registers different: the original register holds afterwards literally what
+   it held; the destination EITHER holds literally what it held (the capacities
+   differ and the interpreter does not make the call; or a Clone panicked: the
+   partial clone has been destroyed and the destination was not replaced) OR shares
+   NO identity with the original.  Same for clone_from and for Sets. *)
+Theorem C15_step_OClone_disjoint :
+  forall (debug : bool) (sc : script) (r r' : N) (x : xworld),
+    below x -> WFx x -> ~ same_m r' r ->
+    let x1 := snd (step debug sc (OClone r r') x) in
+    get_m r x1 = get_m r x /\
+    (get_m r' x1 = get_m r' x \/
+     (forall id : N, In id (mids (get_m r' x1)) -> ~ In id (mids (get_m r x1)))).
+Proof. exact step_OClone_disjoint. Qed.
+Print Assumptions C15_step_OClone_disjoint.
+
+Theorem C15_step_OCloneFrom_disjoint :
+  forall (debug : bool) (sc : script) (r r' : N) (x : xworld),
+    below x -> WFx x -> ~ same_m r' r ->
+    let x1 := snd (step debug sc (OCloneFrom r r') x) in
+    get_m r x1 = get_m r x /\
+    (get_m r' x1 = get_m r' x \/
+     (forall id : N, In id (mids (get_m r' x1)) -> ~ In id (mids (get_m r x1)))).
+Proof. exact step_OCloneFrom_disjoint. Qed.
+Print Assumptions C15_step_OCloneFrom_disjoint.
+
+Theorem C15_step_SClone_disjoint :
+  forall (debug : bool) (sc : script) (r r' : N) (x : xworld),
+    below x -> WFx x -> ~ same_s r' r ->
+    let x1 := snd (step debug sc (SClone r r') x) in
+    get_s r x1 = get_s r x /\
+    (get_s r' x1 = get_s r' x \/
+     (forall id : N, In id (sids (get_s r' x1)) -> ~ In id (sids (get_s r x1)))).
+Proof. exact step_SClone_disjoint. Qed.
+Print Assumptions C15_step_SClone_disjoint.
+
+Theorem C15_step_SCloneFrom_disjoint :
+  forall (debug : bool) (sc : script) (r r' : N) (x : xworld),
+    below x -> WFx x -> ~ same_s r' r ->
+    let x1 := snd (step debug sc (SCloneFrom r r') x) in
+    get_s r x1 = get_s r x /\
+    (get_s r' x1 = get_s r' x \/
+     (forall id : N, In id (sids (get_s r' x1)) -> ~ In id (sids (get_s r x1)))).
+Proof. exact step_SCloneFrom_disjoint. Qed.
+Print Assumptions C15_step_SCloneFrom_disjoint.
+
+(* when the call RETURNED (the observation starts with token 1) the destination
+   holds the complete clone: no identity in common with the original *)
+Theorem C15_step_OClone_returned_disjoint :
+  forall (debug : bool) (sc : script) (r r' : N) (x : xworld) (t : list N),
+    below x -> WFx x -> ~ same_m r' r ->
+    fst (step debug sc (OClone r r') x) = 1%N :: t ->
+    let x1 := snd (step debug sc (OClone r r') x) in
+    forall id : N, In id (mids (get_m r' x1)) -> ~ In id (mids (get_m r x1)).
+Proof. exact step_OClone_returned_disjoint. Qed.
+Print Assumptions C15_step_OClone_returned_disjoint.
+
+(* the two composed: from the interpreter's initial state, after ANY history of
+   operations other than insert_unchecked (ExecSafe.safe_op; any script) that hands
+   in identities below 100000 *)
+Theorem C15_reachable_OClone_disjoint :
+  forall (debug : bool) (sc : script) (ops : list op) (c0 c1 c2 c3 r r' : N),
+    Forall safe_op ops ->
+    (forall (o : op) (id : N), In o ops -> In id (op_ids o) -> (id < 100000)%N) ->
+    ~ same_m r' r ->
+    let x := run_final debug sc ops (init_world c0 c1 c2 c3) in
+    let x1 := snd (step debug sc (OClone r r') x) in
+    get_m r x1 = get_m r x /\
+    (get_m r' x1 = get_m r' x \/
+     (forall id : N, In id (mids (get_m r' x1)) -> ~ In id (mids (get_m r x1)))).
+Proof. exact reachable_OClone_disjoint. Qed.
+Print Assumptions C15_reachable_OClone_disjoint.
+
+Theorem C15_reachable_SClone_disjoint :
+  forall (debug : bool) (sc : script) (ops : list op) (c0 c1 c2 c3 r r' : N),
+    Forall safe_op ops ->
+    (forall (o : op) (id : N), In o ops -> In id (op_ids o) -> (id < 100000)%N) ->
+    ~ same_s r' r ->
+    let x := run_final debug sc ops (init_world c0 c1 c2 c3) in
+    let x1 := snd (step debug sc (SClone r r') x) in
+    get_s r x1 = get_s r x /\
+    (get_s r' x1 = get_s r' x \/
+     (forall id : N, In id (sids (get_s r' x1)) -> ~ In id (sids (get_s r x1)))).
+Proof. exact reachable_SClone_disjoint. Qed.
+Print Assumptions C15_reachable_SClone_disjoint.
+
+(* a history under an ADVERSARIAL script (== lies: the final remove of class 5 is
+   told that nothing matches; or_default created the fresh value 100000) satisfying
+   the hypotheses, and what the clone then looks like: registers 0 and 1 have no
+   identity in common *)
+Example C15_example_reachable :
+  let sc := {| sc_adv := true; sc_seed := 2; sc_fk := 0; sc_fa := 0 |} in
+  let ops := [OInsert 0 (mk 1 5) (mv 2 7); OInsert 0 (mk 3 6) (mv 4 8); OEntry 0 (mk 5 7) 3 (mv 6 0);
+              ORemove 0 (QCls 5)] in
+  Forall safe_op ops /\
+  (forall (o : op) (id : N), In o ops -> In id (op_ids o) -> (id < 100000)%N) /\
+  ~ same_m 1 0 /\
+  let x := run_final false sc ops (init_world 3 3 0 0) in
+  let x1 := snd (step false sc (OClone 0 1) x) in
+  mids (get_m 0 x1) = [1; 2; 3; 4; 5; 100000]%N /\
+  mids (get_m 1 x1) = [100001; 100002; 100003; 100004; 100005; 100006]%N.
+Proof.
+  cbv zeta. split; [repeat constructor|]. split.
+  - intros o id Ho Hid. repeat (destruct Ho as [<-|Ho]; [cbn in Hid; repeat (destruct Hid as [<-|Hid]; [lia|]); destruct Hid|]).
+    destruct Ho.
+  - split; [intros H; discriminate H|]. split; vm_compute; reflexivity.
+Qed.
+
+(* -------------------------------------------------------------------------- *)
+(* 2. Later CHANGES, with content.  ANY environment.
+     MoreOwned.op_ins E o   the identities a dictionary operation hands in;
+     MoreOwned.op_ok E o    True except for retain, whose closure must not change
+                            which object a value is;
+     MoreOwned.mouts        the identities the history handed back to the caller.
+   C15_history_foreign_untouched: a history of dictionary operations run on a
+   container cannot store, hand out or DESTROY an identity that the container did
+   not hold, that no operation handed in and that was alive (not in the drop log).
+   C15_clone_then_history_independent: under the run-relative hypothesis of
+   C15_clone_disjoint_run (which env_map / env_set satisfy in every reachable
+   state, item 1), after a Clone that returned: ANY later history on the CLONE,
+   from any later world holding it in which the original's objects are alive and
+   which hands in none of them, leaves every object of the ORIGINAL out of the
+   clone, out of the caller's hands and NOT DESTROYED; and symmetrically for a
+   history on the original and the objects of the clone.  This would be FALSE if
+   Clone shared objects between the copies (a later remove / clear / overwrite on
+   one copy would destroy an object of the other). *)
+Theorem C15_history_foreign_untouched :
+  forall (K V Q T : Type) (E : env K V Q T) (debug : bool) (foreign : list N)
+         (ops : list (@dop K V Q)) (w : world K V T),
+    WF (self w) ->
+    Forall (op_ok E) ops ->
+    (forall x : N,
+        In x foreign ->
+        ~ In x (owned E (self w)) /\ ~ In x (flat_map (op_ins E) ops) /\ ~ In x (dropped (log w))) ->
+    exists wf : world K V T,
+      mfinal E debug ops w = Some wf /\
+      WF (self wf) /\
+      (forall x : N,
+          In x foreign ->
+          ~ In x (owned E (self wf)) /\ ~ In x (mouts E debug ops w) /\ ~ In x (dropped (log wf))).
+Proof. exact (@history_foreign_untouched). Qed.
+Print Assumptions C15_history_foreign_untouched.
+
+Theorem C15_clone_then_history_independent :
+  forall (K V Q T : Type) (E : env K V Q T) (debug : bool) (src : map K V) (w : world K V T),
+    WF src -> WF (self w) -> len (self w) = 0 -> cap (self w) = cap src -> Tidy (self w) ->
+    (forall x : N,
+        In x (flat_map (ids_pair E) (clone_made E src (len src) 0 (cb w))) -> ~ In x (owned E src)) ->
+    wp (clone_from_src E src)
+       (fun (_ : unit) (w' : world K V T) =>
+          (forall (ops : list (@dop K V Q)) (w2 : world K V T),
+              self w2 = self w' ->
+              Forall (op_ok E) ops ->
+              (forall x : N,
+                  In x (owned E src) -> ~ In x (flat_map (op_ins E) ops) /\ ~ In x (dropped (log w2))) ->
+              exists wf : world K V T,
+                mfinal E debug ops w2 = Some wf /\
+                (forall x : N,
+                    In x (owned E src) ->
+                    ~ In x (owned E (self wf)) /\ ~ In x (mouts E debug ops w2) /\ ~ In x (dropped (log wf)))) /\
+          (forall (ops : list (@dop K V Q)) (w2 : world K V T),
+              self w2 = src ->
+              Forall (op_ok E) ops ->
+              (forall x : N,
+                  In x (owned E (self w')) -> ~ In x (flat_map (op_ins E) ops) /\ ~ In x (dropped (log w2))) ->
+              exists wf : world K V T,
+                mfinal E debug ops w2 = Some wf /\
+                (forall x : N,
+                    In x (owned E (self w')) ->
+                    ~ In x (owned E (self wf)) /\ ~ In x (mouts E debug ops w2) /\ ~ In x (dropped (log wf)))))
+       (fun _ : world K V T => True) w.
+Proof. exact (@clone_then_history_independent). Qed.
+Print Assumptions C15_clone_then_history_independent.
+
+(* clone m3, then on the CLONE: overwrite a value, remove an entry, clear - all
+   six objects of the clone end up destroyed or handed out, none of the original's
+   1..6 (the hypotheses on the history: its arguments 21, 22 are none of 1..6) *)
+Example C15_example_history_on_clone :
+  let E := env_map C15_sc0 in
+  let ops : list (@dop key vobj query) := [DInsert (k_ 21 5) (v_ 22 0); DRemove (QCls 6); DClear] in
+  Forall (op_ok E) ops /\
+  flat_map (op_ins E) ops = [21; 22]%N /\
+  match clone_from_src E m3 (w_of (new_map 3)) with
+  | Ok _ w' =>
+      match mfinal E false ops w' with
+      | Some wf => dropped (log wf) = [21; 100002; 100000; 22; 100004; 100005]%N /\
+                   mouts E false ops w' = [100001; 100003]%N /\ owned E (self wf) = []
+      | None => False
+      end
+  | _ => False
+  end.
+Proof. cbv zeta. split; [repeat constructor|]. split; [reflexivity|]. vm_compute. repeat split; reflexivity. Qed.
